@@ -31,12 +31,13 @@ Kinds == {"assign", "annassign", "walrus", "tuple", "starred", "for", "with", "e
           "fromalias", "fromalias_us",     \* from os import path as NAME / from os import _exit as NAME (the shape rule looks at NAME)
           "fortuple", "withtuple", "comptuple", "nestedtuple",   \* the identifier inside a tuple target
           "compnested",                    \* the variable of a comprehension written inside another comprehension
-          "fromalias_ml"}                  \* from os import (path <newline> as NAME): the alias on a later line than the imported name
+          "fromalias_ml",
+          "futuremodule"}                  \* import __future__ as NAME: an ordinary import of the module, not a from-__future__ import                  \* from os import (path <newline> as NAME): the alias on a later line than the imported name
 Scopes == {"module", "class", "function", "method", "nested", "lambda", "inmethod", "lambdainmethod",   \* inmethod: a def nested in a method
            "classinfunction"}                                                                          \* the body of a class written inside a function: class level
 Shapes == {"x", "_x", "__x__", "x_"}          \* x_: a trailing underscore is an ordinary name
 ParamKinds == {"param", "kwonly", "vararg", "kwarg", "posonly"}
-ImportKinds == {"import", "fromimport", "dotted", "aliased", "dupimport", "aliasclash", "fromalias", "fromalias_us", "fromalias_ml"}
+ImportKinds == {"import", "fromimport", "dotted", "aliased", "dupimport", "aliasclash", "fromalias", "fromalias_us", "fromalias_ml", "futuremodule"}
 FunctionLike == {"function", "method", "nested", "lambda", "inmethod", "lambdainmethod"}
 
 Legal(k, s, sh) ==
